@@ -41,6 +41,12 @@ def handle (line : String) : String :=
     match (hs.splitOn ",").mapM unhexChars with
     | some fl => "ok " ++ hexList (Shell.parseBuildTags fl)
     | none => "bad-op"
+  | ["check", hs, es] =>
+    let fl := if hs = "." then some [] else (hs.splitOn ",").mapM unhexChars
+    match fl, (es.splitOn ",").mapM unhexChars with
+    | some fl, some exprs =>
+      "ok " ++ String.ofList ((Shell.checkTags fl (exprs.map fun e => (e, false))).map fun p => if p.2 then '1' else '0')
+    | _, _ => "bad-op"
   | ["expand", t, d, kvs] =>
     let parseKV (s : String) : Option (List Char × List Char) :=
       match s.splitOn "=" with
